@@ -23,13 +23,17 @@ import (
 	_ "github.com/go-python/gpython/zzverif/engines/containers"
 	_ "github.com/go-python/gpython/zzverif/engines/gens"
 	_ "github.com/go-python/gpython/zzverif/engines/imports"
+	_ "github.com/go-python/gpython/zzverif/engines/isolation"
 	_ "github.com/go-python/gpython/zzverif/engines/lifecycle"
+	"github.com/go-python/gpython/zzverif/engines/racepar"
 	_ "github.com/go-python/gpython/zzverif/engines/repl"
 	_ "github.com/go-python/gpython/zzverif/engines/scope"
 	_ "github.com/go-python/gpython/zzverif/engines/srcfault"
 )
 
 type propCfg struct {
+	RaceEngines  []string // mode B: run by the -race binary of the uninstrumented tree
+	RaceRuns     int
 	Engines      []string
 	QuickRuns    int
 	QuickSecs    int
@@ -40,12 +44,13 @@ type propCfg struct {
 
 var props = map[string]propCfg{
 	"C03": {Engines: []string{"scope"}, QuickRuns: 6000, QuickSecs: 60, ThoroughRuns: 400000, ThoroughSecs: 1200, Level: "exploration"},
-	"C18": {Engines: []string{"compiledet"}, QuickRuns: 2000, QuickSecs: 50, ThoroughRuns: 400000, ThoroughSecs: 1200, Level: "exploration"},
+	"C18": {RaceEngines: []string{"race-compile"}, RaceRuns: 1500, Engines: []string{"compiledet"}, QuickRuns: 2000, QuickSecs: 40, ThoroughRuns: 400000, ThoroughSecs: 1200, Level: "exploration"},
 	"C11": {Engines: []string{"srcfault"}, QuickRuns: 400000, QuickSecs: 60, ThoroughRuns: 20000000, ThoroughSecs: 1200, Level: "fault_enumeration"},
 	"C05": {Engines: []string{"gens"}, QuickRuns: 30000, QuickSecs: 60, ThoroughRuns: 3000000, ThoroughSecs: 1200, Level: "exploration"},
 	"C19": {Engines: []string{"imports"}, QuickRuns: 20000, QuickSecs: 60, ThoroughRuns: 2000000, ThoroughSecs: 1200, Level: "exploration"},
 	"C20": {Engines: []string{"repl"}, QuickRuns: 20000, QuickSecs: 60, ThoroughRuns: 2000000, ThoroughSecs: 1200, Level: "exploration"},
 	"C17": {Engines: []string{"containers"}, QuickRuns: 30000, QuickSecs: 60, ThoroughRuns: 3000000, ThoroughSecs: 1200, Level: "exploration"},
+	"C08": {RaceEngines: []string{"race-contexts"}, RaceRuns: 1500, Engines: []string{"isolation"}, QuickRuns: 8000, QuickSecs: 40, ThoroughRuns: 1000000, ThoroughSecs: 1200, Level: "exploration"},
 	"C09": {Engines: []string{"lifecycle"}, QuickRuns: 40000, QuickSecs: 40, ThoroughRuns: 3000000, ThoroughSecs: 900, Level: "exploration"},
 }
 
@@ -69,6 +74,8 @@ func main() {
 		os.Exit(cmdGen(os.Args[2:]))
 	case "triage":
 		os.Exit(cmdTriage(os.Args[2:]))
+	case "replayrace":
+		os.Exit(cmdReplayRace(os.Args[2:]))
 	default:
 		usage()
 	}
@@ -223,6 +230,7 @@ func cmdWork(args []string) int {
 		res.Shapes = append(res.Shapes, s)
 	}
 	res.WallS = time.Since(start).Seconds()
+	racepar.Cleanup()
 	b, _ := json.Marshal(res)
 	if *outp == "" {
 		os.Stdout.Write(b)
@@ -293,6 +301,38 @@ func cmdCheck(args []string) int {
 		if err != nil {
 			fmt.Fprintln(os.Stderr, "witness", wp, err)
 			infra = true
+			continue
+		}
+		if strings.HasPrefix(rp.Engine, "race-") {
+			// race-detector witnesses are replayed by the -race binary
+			bin, err := raceBinary()
+			if err != nil {
+				fmt.Fprintln(os.Stderr, err)
+				infra = true
+				continue
+			}
+			cmd := exec.Command(bin, "replayrace", wp)
+			cmd.Env = append(os.Environ(), "GORACE=halt_on_error=1 exitcode=66", "GOMAXPROCS=16")
+			outb, err := cmd.CombinedOutput()
+			fails := err != nil
+			switch {
+			case k.Status == "known" && fails:
+				v := harness.Violation{Class: "data-race", Sig: raceSig(string(outb))}
+				if !strings.Contains(string(outb), "DATA RACE") || harness.MatchKnown(known, *prop, rp.Engine, v) == nil {
+					fmt.Printf("VIOLATION property=%s replay=%s\n", *prop, wp)
+					fmt.Printf("  witness of %s now fails differently [%s]: %s\n", k.ID, v.Sig, firstLine(tailString(string(outb), 300)))
+					violations++
+				} else if !knownPrinted[k.ID] {
+					knownPrinted[k.ID] = true
+					fmt.Printf("KNOWN-FINDING: property=%s %s [%s]\n", *prop, k.What, k.ID)
+				}
+			case k.Status == "known":
+				fmt.Printf("note: witness of known finding %s no longer fails\n", k.ID)
+			case fails:
+				fmt.Printf("VIOLATION property=%s replay=%s\n", *prop, wp)
+				fmt.Printf("  regression of fixed finding %s\n", k.ID)
+				violations++
+			}
 			continue
 		}
 		o, sc, err := runReplay(rp)
@@ -515,6 +555,37 @@ func cmdCheck(args []string) int {
 		}
 	}
 
+	// 3. mode B: real goroutines under the race detector (uninstrumented tree)
+	var raceSummaries []map[string]interface{}
+	for _, en := range cfg.RaceEngines {
+		runs := cfg.RaceRuns
+		secs := 40
+		if *tier == "thorough" {
+			runs *= 40
+			secs = 600
+		}
+		if *runsOverride > 0 {
+			runs = *runsOverride
+		}
+		if *secsOverride > 0 {
+			secs = *secsOverride
+		}
+		sum, nv, bad := runRaceEngine(*prop, en, seed, *tier, runs, secs, tmpDir, outDir, known, knownPrinted)
+		violations += nv
+		if bad {
+			infra = true
+		}
+		if sum != nil {
+			raceSummaries = append(raceSummaries, sum)
+			if ev, ok := sum["evaluations"].(int64); ok {
+				totalEval += ev
+			}
+			if d, ok := sum["distinct_nontrivial"].(int); ok {
+				totalDistinct += d
+			}
+		}
+	}
+
 	wall := time.Since(start).Seconds()
 	if !*noEvidence {
 		info := harness.EngineInfo{}
@@ -549,6 +620,7 @@ func cmdCheck(args []string) int {
 				"rule":                strings.Join(rules, " || "),
 				"samples":             allSamples,
 				"engines":             summaries,
+				"race_detector_mode":  raceSummaries,
 				"simulated_time_unit": info.TimeUnit,
 				"known_findings_seen": kf,
 			},
@@ -698,6 +770,23 @@ func cmdReplay(args []string) int {
 	if err != nil {
 		fmt.Fprintln(os.Stderr, err)
 		return 2
+	}
+	if strings.HasPrefix(rp.Engine, "race-") {
+		bin, err := raceBinary()
+		if err != nil {
+			fmt.Fprintln(os.Stderr, err)
+			return 2
+		}
+		cmd := exec.Command(bin, "replayrace", path)
+		cmd.Env = append(os.Environ(), "GORACE=halt_on_error=1 exitcode=66", "GOMAXPROCS=16")
+		outb, err := cmd.CombinedOutput()
+		if err == nil {
+			fmt.Printf("replay of %s: no data race and no violation in 20 runs\n", path)
+			return 0
+		}
+		fmt.Printf("VIOLATION property=%s replay=%s\n", rp.Property, path)
+		fmt.Printf("  %s\n", tailString(string(outb), 4000))
+		return 1
 	}
 	o, _, err := runReplay(rp)
 	if err != nil {
@@ -863,4 +952,237 @@ func cmdTriage(args []string) int {
 		fmt.Printf("%6d %s\n        %s\n", count[k], k, example[k])
 	}
 	return 0
+}
+
+// ---------------------------------------------------------------- mode B
+
+func raceBinary() (string, error) {
+	dir := os.Getenv("VERIF_BUILD_DIR")
+	if dir == "" {
+		return "", fmt.Errorf("VERIF_BUILD_DIR not set")
+	}
+	bin := filepath.Join(dir, "sim-race")
+	if _, err := os.Stat(bin); err != nil {
+		cmd := exec.Command(filepath.Join(verifDir(), "build.sh"), "race")
+		cmd.Stderr = os.Stderr
+		if err := cmd.Run(); err != nil {
+			return "", fmt.Errorf("building the race-detector binary failed: %v", err)
+		}
+	}
+	return bin, nil
+}
+
+func raceSig(report string) string {
+	var fns []string
+	for _, l := range strings.Split(report, "\n") {
+		t := strings.TrimSpace(l)
+		if strings.HasPrefix(l, "  ") && strings.HasSuffix(t, ")") && strings.Contains(t, "gpython") && !strings.Contains(t, "/zzverif/") {
+			if i := strings.LastIndex(t, "/"); i >= 0 {
+				t = t[i+1:]
+			}
+			if i := strings.LastIndex(t, "("); i >= 0 {
+				t = t[:i]
+			}
+			dup := false
+			for _, f := range fns {
+				if f == t {
+					dup = true
+				}
+			}
+			if !dup {
+				fns = append(fns, t)
+			}
+			if len(fns) == 2 {
+				break
+			}
+		}
+	}
+	return "race|" + strings.Join(fns, "|")
+}
+
+func runRaceEngine(prop, en string, seed uint64, tier string, runs, secs int, tmpDir, outDir string, known []harness.KnownFinding, knownPrinted map[string]bool) (map[string]interface{}, int, bool) {
+	bin, err := raceBinary()
+	if err != nil {
+		fmt.Fprintln(os.Stderr, err)
+		return nil, 0, true
+	}
+	e := harness.Get(en)
+	if e == nil {
+		fmt.Fprintln(os.Stderr, "engine not linked:", en)
+		return nil, 0, true
+	}
+	start := time.Now()
+	nw := 4
+	type wres struct {
+		res      *workResult
+		race     string
+		scenario []byte
+		err      error
+	}
+	out := make([]wres, nw)
+	var wg sync.WaitGroup
+	for w := 0; w < nw; w++ {
+		w := w
+		wg.Add(1)
+		go func() {
+			defer wg.Done()
+			of := filepath.Join(tmpDir, fmt.Sprintf("race-%s-%d.json", en, w))
+			pf := filepath.Join(tmpDir, fmt.Sprintf("race-%s-%d.progress", en, w))
+			ef := filepath.Join(tmpDir, fmt.Sprintf("race-%s-%d.stderr", en, w))
+			errFile, _ := os.Create(ef)
+			cmd := exec.Command(bin, "work", "-engine", en, "-seed", fmt.Sprint(seed), "-tier", tier, "-w", fmt.Sprint(w), "-n", fmt.Sprint(nw), "-runs", fmt.Sprint(runs), "-secs", fmt.Sprint(secs), "-out", of)
+			cmd.Env = append(os.Environ(), "GORACE=halt_on_error=1 exitcode=66", "VERIF_RACE_PROGRESS="+pf, "GOMAXPROCS=16")
+			cmd.Stderr = errFile
+			cmd.Stdout = errFile
+			done := make(chan error, 1)
+			go func() { done <- cmd.Run() }()
+			var runErr error
+			select {
+			case runErr = <-done:
+			case <-time.After(time.Duration(secs+180) * time.Second):
+				cmd.Process.Kill()
+				runErr = fmt.Errorf("watchdog timeout")
+			}
+			errFile.Close()
+			report, _ := os.ReadFile(ef)
+			if runErr != nil {
+				if strings.Contains(string(report), "DATA RACE") {
+					out[w].race = string(report)
+					out[w].scenario, _ = os.ReadFile(pf)
+					return
+				}
+				out[w].err = fmt.Errorf("race worker %d: %v: %s", w, runErr, tailString(string(report), 2000))
+				return
+			}
+			b, err := os.ReadFile(of)
+			if err != nil {
+				out[w].err = err
+				return
+			}
+			var r workResult
+			if err := json.Unmarshal(b, &r); err != nil {
+				out[w].err = err
+				return
+			}
+			out[w].res = &r
+		}()
+	}
+	wg.Wait()
+	violations := 0
+	infra := false
+	var evals int64
+	shapes := map[uint64]bool{}
+	probes := map[string]int64{}
+	var samples []json.RawMessage
+	reported := map[string]bool{}
+	for w, o := range out {
+		if o.err != nil {
+			fmt.Fprintln(os.Stderr, o.err)
+			infra = true
+			continue
+		}
+		if o.race != "" {
+			v := harness.Violation{Class: "data-race", Sig: raceSig(o.race), Detail: tailString(o.race, 6000)}
+			if reported[v.Sig] {
+				continue
+			}
+			reported[v.Sig] = true
+			if k := harness.MatchKnown(known, prop, en, v); k != nil {
+				if !knownPrinted[k.ID] {
+					knownPrinted[k.ID] = true
+					fmt.Printf("KNOWN-FINDING: property=%s %s [%s]\n", prop, k.What, k.ID)
+				}
+				continue
+			}
+			rp := &harness.Replay{Engine: en, Property: prop, Seed: seed, Index: w, Scenario: o.scenario, Violation: v, Note: "race-detector mode: replay re-runs the scenario up to 20 times in the -race binary"}
+			path := filepath.Join(outDir, fmt.Sprintf("%s-%s-seed%d-w%d-data-race.json", prop, en, seed, w))
+			if len(o.scenario) == 0 {
+				rp.Scenario = json.RawMessage("null")
+			}
+			if err := harness.WriteReplay(path, rp); err != nil {
+				fmt.Fprintln(os.Stderr, err)
+				infra = true
+				continue
+			}
+			fmt.Printf("VIOLATION property=%s replay=%s\n", prop, path)
+			fmt.Printf("  data-race [%s]: the Go race detector reported a data race (report in the replay file)\n", v.Sig)
+			violations++
+			continue
+		}
+		evals += o.res.Evaluations
+		for _, s := range o.res.Shapes {
+			shapes[s] = true
+		}
+		for k, v := range o.res.Probes {
+			probes[k] += v
+		}
+		for _, s := range o.res.Samples {
+			if len(samples) < 2 {
+				samples = append(samples, s)
+			}
+		}
+		for _, m := range o.res.Infra {
+			fmt.Fprintln(os.Stderr, "infra:", en, m)
+			infra = true
+		}
+		for _, fv := range o.res.Violations {
+			key := fv.Violation.Class + "|" + fv.Violation.Sig
+			if reported[key] {
+				continue
+			}
+			reported[key] = true
+			rp := &harness.Replay{Engine: en, Property: prop, Seed: seed, Index: fv.Index, Scenario: fv.Scenario, Violation: fv.Violation}
+			path := filepath.Join(outDir, fmt.Sprintf("%s-%s-seed%d-idx%d-%s.json", prop, en, seed, fv.Index, sanitize(fv.Violation.Class)))
+			harness.WriteReplay(path, rp)
+			fmt.Printf("VIOLATION property=%s replay=%s\n", prop, path)
+			fmt.Printf("  %s [%s]: %s\n", fv.Violation.Class, fv.Violation.Sig, firstLine(fv.Violation.Detail))
+			violations++
+		}
+	}
+	wall := time.Since(start).Seconds()
+	fmt.Printf("engine=%s (race detector, real goroutines) runs=%d distinct=%d wall=%.1fs\n", en, evals, len(shapes), wall)
+	sum := map[string]interface{}{
+		"engine": en, "evaluations": evals, "distinct_nontrivial": len(shapes), "probes": probes, "wall_s": wall,
+		"info": e.Describe(), "samples": samples, "deterministic": false,
+	}
+	return sum, violations, infra
+}
+
+func tailString(s string, n int) string {
+	if len(s) > n {
+		return s[len(s)-n:]
+	}
+	return s
+}
+
+// replayRace re-runs a race-mode scenario (called in the -race binary).
+func cmdReplayRace(args []string) int {
+	if len(args) != 1 {
+		return 2
+	}
+	rp, err := harness.ReadReplay(args[0])
+	if err != nil {
+		fmt.Fprintln(os.Stderr, err)
+		return 2
+	}
+	e := harness.Get(rp.Engine)
+	if e == nil {
+		return 2
+	}
+	sc, err := e.Decode(rp.Scenario)
+	if err != nil || string(rp.Scenario) == "null" {
+		fmt.Fprintln(os.Stderr, "replay file has no scenario")
+		return 2
+	}
+	bad := 0
+	for i := 0; i < 20; i++ {
+		o := e.Exec(sc, harness.ExecOpts{})
+		if len(o.Violations) > 0 {
+			fmt.Printf("%s: %s\n", o.Violations[0].Class, o.Violations[0].Detail)
+			bad = 1
+			break
+		}
+	}
+	racepar.Cleanup()
+	return bad
 }
